@@ -995,6 +995,155 @@ func (w *c07world) c07ScanAll() (quals []c07AnnLike, writes []c07Write, dyn []st
 	return quals, writes, dyn, nil
 }
 
+// ---------- plugin protocol keys: is every writer matched by a remover on every path? ----------
+
+// c07TopLevel returns the expressions evaluated unconditionally by a statement list: expression statements, right-hand
+// sides, returned values, and the init statement / condition of an `if` (not its branches), in order.
+func c07TopLevel(stmts []ast.Stmt) []ast.Node {
+	var out []ast.Node
+	var stmt func(s ast.Stmt)
+	stmt = func(s ast.Stmt) {
+		switch x := s.(type) {
+		case *ast.ExprStmt:
+			out = append(out, x.X)
+		case *ast.AssignStmt:
+			for _, e := range x.Rhs {
+				out = append(out, e)
+			}
+		case *ast.ReturnStmt:
+			for _, e := range x.Results {
+				out = append(out, e)
+			}
+		case *ast.IfStmt:
+			if x.Init != nil {
+				stmt(x.Init)
+			}
+			out = append(out, x.Cond)
+		case *ast.DeclStmt:
+			out = append(out, x)
+		}
+	}
+	for _, s := range stmts {
+		stmt(s)
+	}
+	return out
+}
+
+func c07HasCall(nodes []ast.Node, pred func(c *ast.CallExpr) bool) bool {
+	found := false
+	for _, n := range nodes {
+		ast.Inspect(n, func(m ast.Node) bool {
+			if c, ok := m.(*ast.CallExpr); ok && pred(c) {
+				found = true
+			}
+			return true
+		})
+	}
+	return found
+}
+
+// c07LoopStatus looks at every `for ... range` loop of function fn (and at the function body itself when inLoop is
+// false): "unconditional" when pred holds for a call evaluated unconditionally by the loop body, "conditional" when
+// such a call only occurs deeper (inside a branch), "missing" otherwise.
+func c07LoopStatus(p *c07pkg, fn string, inLoop bool, pred func(c *ast.CallExpr) bool) string {
+	fd, _ := c07FindFunc(p, "", fn)
+	if fd == nil || fd.Body == nil {
+		return "missing"
+	}
+	status := "missing"
+	consider := func(body []ast.Stmt, whole ast.Node) {
+		if c07HasCall(c07TopLevel(body), pred) {
+			status = "unconditional"
+		} else if status != "unconditional" && c07HasCall([]ast.Node{whole}, pred) {
+			status = "conditional"
+		}
+	}
+	if !inLoop {
+		consider(fd.Body.List, fd.Body)
+		return status
+	}
+	ast.Inspect(fd.Body, func(n ast.Node) bool {
+		if rg, ok := n.(*ast.RangeStmt); ok {
+			consider(rg.Body.List, rg.Body)
+		}
+		return true
+	})
+	return status
+}
+
+func c07Worst(a ...string) string {
+	rank := map[string]int{"unconditional": 0, "conditional": 1, "missing": 2}
+	w := "unconditional"
+	for _, x := range a {
+		if rank[x] > rank[w] {
+			w = x
+		}
+	}
+	return w
+}
+
+// protocolRemovals: the exec / KRM-function plugin protocol (api/internal/plugins/utils). idAnnotation is written on
+// the copy handed to a plugin transformer and must be removed from EVERY resource read back (UpdateResMapValues ->
+// removeIDAnnotation); HashAnnotation / BehaviorAnnotation are written by plugins and consumed by UpdateResourceOptions.
+func (w *c07world) protocolRemovals() ([][3]string, error) {
+	dir := filepath.Join(w.repo, "api/internal/plugins/utils")
+	p, err := w.load(dir)
+	if err != nil {
+		return nil, err
+	}
+	val := func(name string) (string, error) {
+		e, ok := p.exprs[name]
+		if !ok {
+			return "", fmt.Errorf("constant %s not found in %s", name, dir)
+		}
+		v, ok := w.eval(p, p.fileOf[name], e, 0)
+		if !ok {
+			return "", fmt.Errorf("constant %s of %s is not a string", name, dir)
+		}
+		return v, nil
+	}
+	isCallNamed := func(name string) func(c *ast.CallExpr) bool {
+		return func(c *ast.CallExpr) bool {
+			switch f := c.Fun.(type) {
+			case *ast.Ident:
+				return f.Name == name
+			case *ast.SelectorExpr:
+				return f.Sel.Name == name
+			}
+			return false
+		}
+	}
+	deletes := func(constName string) func(c *ast.CallExpr) bool {
+		return func(c *ast.CallExpr) bool {
+			if c07ExprText(c.Fun) != "delete" || len(c.Args) != 2 {
+				return false
+			}
+			return c07ExprText(c.Args[1]) == constName
+		}
+	}
+	var out [][3]string
+	idv, err := val("idAnnotation")
+	if err != nil {
+		return nil, err
+	}
+	st := c07Worst(
+		c07LoopStatus(p, "UpdateResMapValues", true, isCallNamed("removeIDAnnotation")),
+		c07LoopStatus(p, "removeIDAnnotation", false, deletes("idAnnotation")),
+		c07LoopStatus(p, "removeIDAnnotation", false, isCallNamed("SetAnnotations")))
+	out = append(out, [3]string{idv, "UpdateResMapValues: removeIDAnnotation on every resource read back", st})
+	for _, cn := range []string{"HashAnnotation", "BehaviorAnnotation"} {
+		v, err := val(cn)
+		if err != nil {
+			return nil, err
+		}
+		st := c07Worst(
+			c07LoopStatus(p, "UpdateResourceOptions", true, deletes(cn)),
+			c07LoopStatus(p, "UpdateResourceOptions", true, isCallNamed("SetAnnotations")))
+		out = append(out, [3]string{v, "UpdateResourceOptions: deleted from every generated resource", st})
+	}
+	return out, nil
+}
+
 // ---------- printing ----------
 
 func c07CoqStrList(l []string) string {
@@ -1151,6 +1300,21 @@ func init() {
 		b.WriteString("].\n\n")
 		b.WriteString("(* string concatenations that do not fold to a constant although one operand is an annotation domain / prefix *)\n")
 		fmt.Fprintf(&b, "Definition gen_dynamic_key_concats : list string := %s.\n\n", c07CoqStrList(dynsites))
+
+		prs, err := w.protocolRemovals()
+		if err != nil {
+			return "", err
+		}
+		b.WriteString("(* exec / KRM-function plugin protocol keys (api/internal/plugins/utils): (key, where it is removed, status);\n   unconditional = the removal is evaluated unconditionally for every resource of the loop, conditional = only\n   inside a branch, missing = not found *)\n")
+		b.WriteString("Definition gen_plugin_protocol_removals : list (string * string * string) := [\n")
+		for i, x := range prs {
+			sep := ";"
+			if i == len(prs)-1 {
+				sep = ""
+			}
+			fmt.Fprintf(&b, "  (%s, %s, %s)%s\n", coqStr(x[0]), coqStr(x[1]), coqStr(x[2]), sep)
+		}
+		b.WriteString("].\n\n")
 
 		// skip tables
 		for _, t := range []struct{ v, coq string }{{"prefixFieldSpecsToSkip", "gen_prefix_skip"}, {"suffixFieldSpecsToSkip", "gen_suffix_skip"}} {
